@@ -393,6 +393,11 @@ class _ProtoEval:
     def product(self, v):
         if isinstance(v, ast.Name) and v.id in self.env:
             v = self.env[v.id]
+        if isinstance(v, ast.Call):
+            # the whole construction moved into a private helper
+            h = _helper_return(v)
+            if h is not None:
+                v = h
         if not (isinstance(v, ast.Call) and len(v.args) == 1
                 and not v.keywords):
             raise AnalysisError(f'product {norm(v)} is not init(T)')
